@@ -203,8 +203,14 @@ def run(tier, seed):
     cls = ci.Cls("monoidal")
     cases = connected_programs(tier, seed)
     progs, meta = [], []
-    for p, info in cases:
+    for k_case, (p, info) in enumerate(cases):
         left = rng.randint(0, 1)
+        # a third of the diagrams reach normalisation through a double dagger or a full slice: equal
+        # values, but built by other constructors (other internal containers)
+        if k_case % 3 == 1:
+            p = [G.DAGGER, [G.DAGGER, p]]
+        elif k_case % 3 == 2:
+            p = [G.SLICE, p, [0], []]
         progs.append([G.NORMALIZE, p, left])
         meta.append((p, left))
         progs.append([G.NORMALFORM, p, left])
